@@ -115,3 +115,26 @@ Example wf_listing_ex :
   forallb wf_dirent [DPid (bs "1"); DOther (bs "self"); DPid (bs "4194304"); DOther (bs "1a")] = true
   /\ spec_dir_pids [DPid (bs "1"); DOther (bs "self"); DPid (bs "4194304"); DOther (bs "1a")] = [1; 4194304].
 Proof. vm_compute. split; reflexivity. Qed.
+
+(* ---- a status file that cannot be opened / read, or has no Tgid line: pid in pids() *)
+Lemma status_no_tgid pre :
+  forallb wf_preline pre = true -> status_tgid (k_lines pre) = Exc ValueError.
+Proof.
+  intros H. unfold status_tgid. rewrite <- (app_nil_r (k_lines pre)).
+  rewrite (lines_keep_pre _ _ H). cbn [lines_keep]. rewrite (tgid_scan_skip _ _ H). reflexivity.
+Qed.
+
+Theorem pid_exists_linux_fault pid k status d :
+  forallb wf_dirent d = true ->
+  k = KOk \/ k = KEperm ->
+  status = None \/ (exists pre, forallb wf_preline pre = true /\ status = Some (k_lines pre)) ->
+  pid_exists_linux pid k status (k_listdir d) = Val (zmem pid (spec_dir_pids d)).
+Proof.
+  intros Hwf Hk Hst.
+  assert (Hfb : (do l <- plat_pids (k_listdir d); Val (zmem pid l)) = Val (zmem pid (spec_dir_pids d))).
+  { rewrite (listing_parse _ Hwf). reflexivity. }
+  unfold pid_exists_linux.
+  destruct Hst as [->|[pre [Hpre ->]]].
+  - destruct Hk as [->| ->]; exact Hfb.
+  - rewrite (status_no_tgid _ Hpre). destruct Hk as [->| ->]; exact Hfb.
+Qed.
